@@ -647,6 +647,11 @@ def run_variant(C, base_ops, rng, tid=0, lazy=False, k=4):
     ins = {}
     for i, c in chosen:
         ins.setdefault(i, []).append(c)
+    # places right after a position was closed are always tried, with a longer burst
+    after_close = [(i, c) for i, c in pts if base_ops[i]["op"] == "close"][:3]
+    burst = {i: 2 for i, _ in after_close}
+    for i, c in after_close:
+        ins.setdefault(i, [c])
     var = Recorder(C, lazy=lazy)
     vops = []
     for i, op in enumerate(base_ops[:n]):
@@ -659,12 +664,14 @@ def run_variant(C, base_ops, rng, tid=0, lazy=False, k=4):
         if ev["exc"] != "none" or ev["bankrupt"]:
             break
         for c in ins.get(i, []):
-            if rng.random() < 0.6:
-                x = {"op": "update", "date": c}
-            else:
-                x = {"op": "read", "node": rng.randint(1, C["N"]), "prop": rng.choice(["value", "weight", "notional_value"])}
-            var.step(x)
-            vops.append(x)
+            # a burst of one to three redundant refreshes at this place
+            for _ in range(max(burst.get(i, 0), rng.choice([1, 1, 2, 2, 3]))):
+                if rng.random() < 0.6:
+                    x = {"op": "update", "date": c}
+                else:
+                    x = {"op": "read", "node": rng.randint(1, C["N"]), "prop": rng.choice(["value", "weight", "notional_value"])}
+                var.step(x)
+                vops.append(x)
     bt_ = {"tid": tid, "C": C, "events": base.events, "ops": list(base_ops[:n])}
     vt = {"tid": tid + 1, "C": C, "events": var.events, "ops": vops, "variant_of": tid}
     return bt_, vt
